@@ -106,19 +106,21 @@ structure FloatLit where
   expDigits : List Char
 deriving Repr, DecidableEq
 
-/-- accumulate the literal and return the unread rest (leading white space skipped by the sentry) -/
-def scanFloat (s : List Char) : FloatLit × List Char :=
-  let s := dropWS s
-  let (neg, s) := match s with
-    | '+' :: r => (false, r)
-    | '-' :: r => (true, r)
-    | _ => (false, s)
-  let (ip, s) := takeDigits s
-  let (fp, s, _sawDot) := match s with
-    | '.' :: r => let (f, r') := takeDigits r; (f, r', true)
-    | _ => ([], s, false)
-  let mant := !(ip.isEmpty && fp.isEmpty)
-  match s with
+/-- optional sign: `(negative, rest)` -/
+def takeSign : List Char → Bool × List Char
+  | '+' :: r => (false, r)
+  | '-' :: r => (true, r)
+  | s => (false, s)
+
+/-- optional `.` followed by digits -/
+def takeFrac : List Char → List Char × List Char
+  | '.' :: r => takeDigits r
+  | s => ([], s)
+
+/-- optional exponent, entered only after a mantissa digit (`mant`): `e`/`E`, optional sign, digits.
+Returns `(sawE, expNeg, expSign, expDigits)` and the rest. -/
+def takeExp (mant : Bool) : List Char → (Bool × Bool × Bool × List Char) × List Char
+  | [] => ((false, false, false, []), [])
   | c :: r =>
     if (c = 'e' || c = 'E') && mant then
       let (esign, eneg, r) := match r with
@@ -126,9 +128,17 @@ def scanFloat (s : List Char) : FloatLit × List Char :=
         | '-' :: r' => (true, true, r')
         | _ => (false, false, r)
       let (ed, r) := takeDigits r
-      (⟨neg, ip, fp, true, eneg, esign, ed⟩, r)
-    else (⟨neg, ip, fp, false, false, false, []⟩, s)
-  | [] => (⟨neg, ip, fp, false, false, false, []⟩, [])
+      ((true, eneg, esign, ed), r)
+    else ((false, false, false, []), c :: r)
+
+/-- accumulate the literal and return the unread rest (leading white space skipped by the sentry) -/
+def scanFloat (s : List Char) : FloatLit × List Char :=
+  let (neg, s) := takeSign (dropWS s)
+  let (ip, s) := takeDigits s
+  let (fp, s) := takeFrac s
+  let mant := !(ip.isEmpty && fp.isEmpty)
+  let ((sawE, eneg, esign, ed), s) := takeExp mant s
+  (⟨neg, ip, fp, sawE, eneg, esign, ed⟩, s)
 
 /-- `strtod` consumes the whole accumulated string iff there is a mantissa digit and, when an `e` was accumulated,
 at least one exponent digit -/
